@@ -18,7 +18,8 @@
 #define A(x) ((uint64_t) (uintptr_t) (x))
 #define CALLN(w, f, ...) tcalln(w, (void *) (f), (int) (sizeof((uint64_t[]){ __VA_ARGS__ }) / 8), (uint64_t[]){ __VA_ARGS__ })
 #define NB 34
-#define MAXL 3000
+#define MAXL 9000
+static uint32_t HI_N, HI_1; /* upper length bound of the N-buffer profiles / of the single-buffer sweeps (set from the tier) */
 static region_t RIN[NB], ROUT[NB], RIV[NB], RTAG[NB], RAAD;
 static IMB_MGR *m;
 static int g_v;
@@ -143,7 +144,7 @@ t_zuc(void)
                         uint32_t len[NB];
                         const void *keys[NB], *ivs[NB], *ins[NB];
                         void *outs[NB];
-                        profile(prof, n, len, 1, 300);
+                        profile(prof, n, len, 1, HI_N);
                         for (int i = 0; i < n; i++) {
                                 keys[i] = KEY[i];
                                 uint8_t *iv = place(RIV[i], 16);
@@ -246,7 +247,7 @@ t_snow3g(void)
                                                 viol("snow3g-f8-n-buffer", "write-on-failure", "failed call wrote to an output buffer", n, i);
                                 continue;
                         }
-                        profile(prof, n, len, 1, 300);
+                        profile(prof, n, len, 1, HI_N);
                         for (int i = 0; i < n; i++) {
                                 uint8_t *iv = place(RIV[i], 16);
                                 fill_rand(iv, 16, 1900 + (uint64_t) i);
@@ -329,7 +330,7 @@ t_snow3g(void)
                                 if (memcmp(outs[0], exp, len[0]))
                                         viol("snow3g-f8-1-buffer", "output-differs", "1-buffer result differs", prof, 0);
                                 /* F9 over bit lengths */
-                                for (uint32_t bits = 1; bits <= 600; bits += (prof + 1)) {
+                                for (uint32_t bits = 1; bits <= 2 * HI_1; bits += (prof + 1)) {
                                         const uint8_t *msg = inbuf(1, (bits + 7) / 8, 2100 + bits);
                                         uint8_t *tag = place(RTAG[0], 4);
                                         uint8_t et[4];
@@ -360,7 +361,7 @@ t_kasumi(void)
                         const void *ins[NB];
                         void *outs[NB];
                         uint8_t ivb[NB][8];
-                        profile(prof, n, len, 1, 300);
+                        profile(prof, n, len, 1, HI_N);
                         for (int i = 0; i < n; i++) {
                                 fill_rand(ivb[i], 8, 2900 + (uint64_t) i);
                                 memcpy(&ivs[i], ivb[i], 8);
@@ -415,7 +416,7 @@ t_kasumi(void)
                         }
                 }
         /* F9 (already formatted message) */
-        for (uint32_t l = 9; l <= 300; l++) {
+        for (uint32_t l = 9; l <= HI_1; l++) {
                 const uint8_t *msg = inbuf(0, l, 3300 + l);
                 uint8_t *tag = place(RTAG[0], 4);
                 uint8_t et[4];
@@ -439,7 +440,7 @@ t_hash_crc(void)
         void *ob[6] = { (void *) m->sha1_one_block, (void *) m->sha224_one_block, (void *) m->sha256_one_block, (void *) m->sha384_one_block,
                         (void *) m->sha512_one_block, (void *) m->md5_one_block };
         for (int h = 0; h < 5; h++)
-                for (uint32_t l = 0; l <= 300; l++) {
+                for (uint32_t l = 0; l <= HI_1; l++) {
                         const uint8_t *msg = inbuf(0, l ? l : 1, 4000 + l);
                         uint8_t *dg = outbuf(0, (size_t) H[h].dsz);
                         uint8_t ed[64];
@@ -482,7 +483,7 @@ t_hash_crc(void)
         cf[REF_CRC7_FP_HEADER] = (void *) m->crc7_fp_header;
         cf[REF_CRC6_IUUP_HEADER] = (void *) m->crc6_iuup_header;
         for (int c = 0; c < REF_CRC_NUM; c++)
-                for (uint32_t l = 1; l <= 300; l++) {
+                for (uint32_t l = 1; l <= HI_1; l++) {
                         const uint8_t *msg = inbuf(0, l, 4800 + l);
                         uint32_t got = 0;
                         GUARDED("crc", got = (uint32_t) CALLN("crc", cf[c], A(msg), A(l)));
@@ -518,7 +519,9 @@ t_gcm_cfb_quic(void)
         void *dec[3] = { (void *) m->gcm128_dec, (void *) m->gcm192_dec, (void *) m->gcm256_dec };
         uint8_t exp[MAXL], et[16];
         for (int k = 0; k < 3; k++)
-                for (uint32_t l = 1; l <= 600; l += (l < 300 ? 1 : 13))
+                for (uint32_t l = 1; l <= 8193; l += (l < 300 ? 1 : l < 600 ? 13 : 1)) {
+                        if (l > 600 && !((l >= 1023 && l <= 1025) || (l >= 2047 && l <= 2049) || (l >= 4064 && l <= 4081) || l >= 8191))
+                                continue; /* dense, then the block-count boundaries of the 8/16/32/48-block loops */
                         for (int d = 0; d < 2; d++) {
                                 uint32_t aadl = l % 27, tl = 16 - (l % 5);
                                 const uint8_t *in = inbuf(0, l, 6000 + l);
@@ -534,6 +537,7 @@ t_gcm_cfb_quic(void)
                                 if (memcmp(out, exp, l) || memcmp(tag, et, tl) || !out_canary_ok(0, l))
                                         viol("gcm-one-shot", "output-differs", "direct GCM result differs from the reference (x = length, y = key index)", l, k);
                         }
+                }
         /* GHASH */
         static struct gcm_key_data ghk __attribute__((aligned(64)));
         IMB_GHASH_PRE(m, KEY[1], &ghk);
@@ -755,6 +759,48 @@ t_bit_level(void)
                 }
 }
 
+/* exported helpers that are not reached through the manager's table */
+static void
+t_misc(void)
+{
+        uint64_t ks[16];
+        uint8_t exp[16], zero8[8] = { 0 };
+        IMB_DES_KEYSCHED(m, ks, KEY[6]);
+        for (int len = 1; len <= 8; len++)
+                for (int t = 0; t < 8; t++) {
+                        const uint8_t *in = inbuf(0, (size_t) len, 9700 + (uint64_t) (len * 8 + t));
+                        uint8_t *out = outbuf(0, (size_t) len);
+                        uint8_t *iv = place(RIV[0], 8);
+                        fill_rand(iv, 8, 9800 + (uint64_t) t);
+                        GUARDED("des-cfb-one", CALLN("des_cfb_one", des_cfb_one, A(out), A(in), A(iv), A(ks), A(len)));
+                        uint8_t eiv[8];
+                        ref_des_cbc(1, KEY[6], zero8, iv, eiv, 8); /* E_k(iv) */
+                        for (int i = 0; i < len; i++)
+                                exp[i] = in[i] ^ eiv[i];
+                        n_eval++;
+                        if (memcmp(out, exp, (size_t) len) || !out_canary_ok(0, (size_t) len))
+                                viol("des-cfb-one", "output-differs", "single-block DES-CFB differs from in ^ E_k(iv) (x = length)", len, t);
+                }
+        for (size_t n = 0; n <= 300; n++) {
+                uint8_t *b = outbuf(0, n);
+                memset(b, 0x5C, n);
+                GUARDED("imb-clear-mem", CALLN("imb_clear_mem", imb_clear_mem, A(b), A(n)));
+                n_eval++;
+                int bad = 0;
+                for (size_t i = 0; i < n; i++)
+                        bad |= b[i];
+                if (bad || !out_canary_ok(0, n))
+                        viol("imb-clear-mem", "output-differs", "imb_clear_mem did not zero exactly the given range (x = size)", (long) n, 0);
+        }
+        /* pure queries: only the calling-convention invariant and "no fault" apply */
+        GUARDED("imb-get-feature-flags", CALLN("imb_get_feature_flags", imb_get_feature_flags, 0));
+        GUARDED("imb-get-arch-type-string", CALLN("imb_get_arch_type_string", imb_get_arch_type_string, A(m), A(NULL), A(NULL)));
+        GUARDED("imb-hash-burst-get-size", CALLN("imb_hash_burst_get_size", imb_hash_burst_get_size, A(m), IMB_AUTH_HMAC_SHA_1, A(exp)));
+        GUARDED("imb-cipher-burst-get-size", CALLN("imb_cipher_burst_get_size", imb_cipher_burst_get_size, A(m), IMB_CIPHER_CBC, A(exp)));
+        GUARDED("imb-aead-burst-get-size", CALLN("imb_aead_burst_get_size", imb_aead_burst_get_size, A(m), IMB_CIPHER_CCM, A(exp)));
+        n_eval += 5;
+}
+
 /* NULL / zero arguments: no fault and an error code */
 static void
 t_null_args(void)
@@ -847,6 +893,7 @@ run_variant(long v, void *arg)
                 t_hash_crc();
                 t_gcm_cfb_quic();
                 t_bit_level();
+                t_misc();
         }
         g_place = 0;
         t_null_args();
@@ -875,12 +922,14 @@ main(int argc, char **argv)
         g_prop = argc > 1 ? argv[1] : "C09";
         rec_init(g_prop, getenv("VERIF_TIER") ? getenv("VERIF_TIER") : "quick");
         for (int i = 0; i < NB; i++) {
-                RIN[i] = region_new(1);
-                ROUT[i] = region_new(1);
+                RIN[i] = region_new(3);
+                ROUT[i] = region_new(3);
                 RIV[i] = region_new(1);
                 RTAG[i] = region_new(1);
         }
         RAAD = region_new(1);
+        HI_N = tier_thorough() ? 2100 : 300;
+        HI_1 = tier_thorough() ? 1100 : 300;
         struct sigaction sa;
         memset(&sa, 0, sizeof sa);
         sa.sa_sigaction = on_segv;
